@@ -281,7 +281,7 @@ def report(prop, tier, seed, results, meta, t0, write=True, verbose=False):
                        "obligations": len(r.get("obligations", [])), "wall_s": round(r.get("wall_s", 0.0), 2)} for r in results],
     }
     for k, v in extra_cov.items():
-        cov[k] = v
+        cov[k] = all(v) if v and all(isinstance(x, bool) for x in v) else v
     proof_ok = (n_obl > 0 and n_dis == n_obl and not unsupported and not violations)
     ev_level = "proof" if proof_ok else "other"
     if ev_level == "other":
@@ -297,6 +297,18 @@ def report(prop, tier, seed, results, meta, t0, write=True, verbose=False):
         "wall_s": round(wall, 2), "violations": len(seen_v),
     }
     if write and rc != 3:
+        # the evidence must be an instance of the evidence schema: a malformed report is a checker error, not a pass
+        try:
+            import jsonschema
+
+            sch = "/root/.vp/EVIDENCE.schema.json"
+            if os.path.exists(sch):
+                jsonschema.validate(json.loads(json.dumps(ev, default=repr)), json.load(open(sch)))
+        except ImportError:
+            pass
+        except Exception as e:
+            print("CHECKER-ERROR property=%s evidence does not match the schema: %s" % (prop, str(e).splitlines()[0]))
+            rc = 3 if rc == 0 else rc
         os.makedirs(EVIDENCE, exist_ok=True)
         with open(os.path.join(EVIDENCE, prop + ".json"), "w") as f:
             json.dump(ev, f, indent=1, default=repr)
